@@ -376,7 +376,15 @@ func (e *Engine) Load(st *State, p PtrV, typ types.Type, where string) Value {
 // hookTick: sequential stall hook. Before the access that follows exactly `cut` earlier accesses
 // of the hooked region the registered function (the adversary) runs to completion.
 func (e *Engine) hookTick(st *State, o *Obj, where string, atomic bool) {
-	if e.hookObj != o || e.hookBusy || st.Th != nil || e.hookCnt == nil {
+	if e.hookBusy || st.Th != nil || e.hookCnt == nil {
+		return
+	}
+	if o == nil {
+		// synchronisation point (atomic operation, lock acquisition, channel operation)
+		if !e.hookSync {
+			return
+		}
+	} else if e.hookSync || e.hookObj != o {
 		return
 	}
 	c := e.C
